@@ -83,7 +83,7 @@ QV == <<"Q1", "Q2">>     \* the two @overload signatures of a runtime function
 RDef == [rk |-> "abs", rdoc |-> TRUE, rann |-> TRUE, rpar |-> "two", rov |-> FALSE, irk |-> "abs", ibare |-> FALSE]
 SDef == [sk |-> "abs", sdoc |-> TRUE, sann |-> TRUE, sret |-> TRUE, spar |-> "same", sov |-> FALSE, isk |-> "abs"]
 IRK == {"abs", "fun", "att", "cls", "al_ext", "al_fun"}
-ISK == {"abs", "fun", "att", "cls", "al", "ovo"}
+ISK == {"abs", "fun", "att", "cls", "al", "al_fun", "ovo"}   \* al: import from a module that is not loaded; al_fun: from `tgt`
 RSide ==
   {RDef}
   \cup {[RDef EXCEPT !.rk = "cls", !.rdoc = d, !.irk = i, !.ibare = x] :
@@ -98,7 +98,7 @@ SSide ==
   \cup {[SDef EXCEPT !.sk = "fun", !.sdoc = d, !.sann = a, !.sret = r, !.spar = p, !.sov = o] :
            d \in B, a \in B, r \in B, p \in {"same", "diff", "none"}, o \in B}
   \cup {[SDef EXCEPT !.sk = "att", !.sdoc = d, !.sann = a] : d \in B, a \in B}
-  \cup {[SDef EXCEPT !.sk = k] : k \in {"al", "ovo"}}
+  \cup {[SDef EXCEPT !.sk = k] : k \in {"al", "al_fun", "ovo"}}
 RIsDef(r) == r = [RDef EXCEPT !.rk = r.rk]
 SIsDef(s) == s = [SDef EXCEPT !.sk = s.sk]
 Interacts(rk, sk) ==
@@ -156,6 +156,7 @@ SObj(c, n) ==
                          CASE c.spar = "same" -> "pq" [] c.spar = "diff" -> "pr" [] OTHER -> "none")
     [] c.sk = "att" -> At(Tag(c.sdoc, "S"), Tag(c.sann, "S"))
     [] c.sk = "al" -> Al("elsewhere.yy")
+    [] c.sk = "al_fun" -> Al(FnPath[n])               \* stub-side import of an object of the already loaded `tgt`
     [] OTHER -> Blank                                  \* abs, ovo
 RHas(c) == c.rk # "abs"
 SHas(c) == c.sk \notin {"abs", "ovo"}
@@ -183,7 +184,7 @@ InitHeap(ca, cb, md) ==
        [] id[1] = "R" /\ id[3] = "" -> RObj(c, id[2])
        [] id[1] = "S" /\ id[3] = "" -> SObj(c, id[2])
        [] id[1] = "R" /\ id[3] = "u" -> IF c.rk = "cls" THEN (IF c.irk = "al_fun" THEN Al(FnPath[id[2]]) ELSE RInnerU(c)) ELSE Blank
-       [] id[1] = "S" /\ id[3] = "u" -> IF c.sk = "cls" THEN SInnerU(c) ELSE Blank
+       [] id[1] = "S" /\ id[3] = "u" -> IF c.sk = "cls" THEN (IF c.isk = "al_fun" THEN Al(FnPath[id[2]]) ELSE SInnerU(c)) ELSE Blank
        [] id[1] = "R" -> IF c.rk = "cls" THEN Fn("R", "R", "R", <<>>, "pq") ELSE Blank   \* v
        [] OTHER -> IF c.sk = "cls" THEN Fn("S", "S", "S", <<>>, "pq") ELSE Blank]          \* v
 
